@@ -466,16 +466,29 @@ example : IllFormed (UCArgs.mk (some "a") (.str "{{x}}") true (some (.leaf .none
 /-! ## 4. `DeleteContext` -/
 
 /-- the string and the list/tuple notation of a key name the same path; the empty string is the empty
-path; a key of any other type is rejected with `LenaTypeError` (/verif/notes/C08_defect_1) -/
+path; a key of any other type is rejected with `LenaTypeError` (/verif/notes/C08_defect_1), and so is a
+list/tuple with a member that is not a string (/verif/notes/C08_defect_3) -/
 theorem delete_notations (p : List String) (hp : WFPath p) :
-    dcInit (.str (joinDots p)) = .ok p ∧ dcInit (.list p) = .ok p ∧ dcInit .other = .error .lenaTypeError := by
-  refine ⟨?_, rfl, rfl⟩
-  simp only [dcInit, strToListE, strToList]
-  congr 1
-  by_cases hne : p = []
-  · subst hne; simp [joinDots_nil]
-  · rw [if_neg (joinDots_ne_empty p hne hp)]
-    exact splitDots_joinDots p hne (fun k hk => (hp k hk).2)
+    dcInit (.str (joinDots p)) = .ok p ∧ dcInit (.list (p.map (fun k => .leaf (.str k)))) = .ok p ∧
+    dcInit .other = .error .lenaTypeError ∧
+    (∀ ks : List Val, ks.all isStrVal = false → dcInit (.list ks) = .error .lenaTypeError) := by
+  refine ⟨?_, ?_, rfl, ?_⟩
+  · simp only [dcInit, strToListE, strToList]
+    congr 1
+    by_cases hne : p = []
+    · subst hne; simp [joinDots_nil]
+    · rw [if_neg (joinDots_ne_empty p hne hp)]
+      exact splitDots_joinDots p hne (fun k hk => (hp k hk).2)
+  · have h1 : (p.map (fun k => Val.leaf (.str k))).all isStrVal = true := by simp [isStrVal]
+    have h2 : ∀ p : List String, (p.map (fun k => Val.leaf (.str k))).filterMap strOfStrVal = p := by
+      intro p
+      induction p with
+      | nil => rfl
+      | cons k r ih => simp only [List.map_cons, List.filterMap_cons, strOfStrVal]; rw [ih]
+    simp [dcInit, h1, h2 p]
+  · intro ks h; simp [dcInit, h]
+
+example : dcInit (.list [.leaf (.str "a"), .list [.leaf (.str "b")]]) = .error .lenaTypeError := by decide
 
 /-- **delete_exact** — "DeleteContext changes exactly the addressed item and leaves the data and every
 other item untouched": for a non-empty key path the result is the same data with a context in which
